@@ -68,6 +68,12 @@ MUTANTS = [
     ("region not forwarded", "AegeanTools/source_finder.py",
      "            region=global_data.region,\n            wcs=global_data."
      "psfhelper,", "            wcs=global_data.psfhelper,", "C11-R4"),
+    ("region dropped when the four corners are inside (seed C11d)",
+     "AegeanTools/source_finder.py",
+     "    # compute SNR image\n    snr = abs(im - bkg) / rms",
+     "    if region is not None:\n        ra, dec = wcs.wcs.wcs_pix2world([(0, 0), (im.shape[1] - 1, im.shape[0] - 1)], 0).transpose()\n"
+     "        if np.all(region.sky_within(ra, dec, degin=True)):\n            region = None\n"
+     "    # compute SNR image\n    snr = abs(im - bkg) / rms", "C11-R3"),
 ]
 TWINS = [
     ("finite own pixels tested (implied by membership)",
@@ -208,6 +214,38 @@ def run(ctx):
                       "longer a filter of the unrestricted one", node=s)
     ctx.floor("C11-R3", n, 1, "region-dependent statements in the island "
               "loop")
+    # the region itself is never dropped or replaced on the strength of a
+    # partial test: the only re-binding of `region` is the documented
+    # "no wcs" fallback, and every sky_within call sits in the island loop
+    rebinds = [st for st in walk_no_nested(fi.node)
+               if isinstance(st, ast.Assign) and any(
+                   isinstance(t, ast.Name) and t.id == region_p
+                   for t in st.targets)]
+    pm3 = {}
+    for x in ast.walk(fi.node):
+        for ch in ast.iter_child_nodes(x):
+            pm3[ch] = x
+    for st in rebinds:
+        g_ = pm3.get(st)
+        okg = isinstance(g_, ast.If) and "wcs" in names_in(g_.test) and \
+            not any(isinstance(c, ast.Call) for c in ast.walk(g_.test)) and \
+            norm(st.value) == "None"
+        ctx.check("C11-R3", fi, "re-binding " + norm(st), okg,
+                  "the region is replaced under `%s`: a test of a few "
+                  "positions (corners, centre) does not decide a HEALPix "
+                  "pixel set, which may have holes -- islands in a hole "
+                  "would be returned although they are outside the region" %
+                  (norm(g_.test, 60) if isinstance(g_, ast.If) else "?"),
+                  node=st)
+    outside = [c for c in walk_no_nested(fi.node) if isinstance(c, ast.Call)
+               and isinstance(c.func, ast.Attribute) and
+               c.func.attr == "sky_within" and
+               not any(c is y for y in ast.walk(m.loop))]
+    ctx.check("C11-R3", fi, "membership is only asked per island",
+              not outside, "region.sky_within is called outside the island "
+              "loop (%s): a decision for the whole image is taken from a "
+              "few positions" % [norm(c, 50) for c in outside],
+              node=outside[0] if outside else fi.node)
     # ---------------------------------------------------------------- R4
     ctx.rule("C11-R4", "region loading: Region instance | existing file -> "
              "Region.load | otherwise error log and None")
